@@ -40,8 +40,6 @@ def same_nv(*bdds):
     if len(nvs) != 1:
         raise NotCovered("operands over different variable counts")
     nv = nvs.pop()
-    if nv > MAXNV:
-        raise NotCovered("too many variables for the truth-table oracle")
     return nv
 
 
@@ -145,6 +143,8 @@ def expected(call):
             else:
                 raise NotCovered("inner operator is neither or nor and")
         xs = sorted({x for x in xs if x < nv})
+        if len(xs) > 14:
+            raise NotCovered("too many quantified variables for the oracle")
 
         def q(v):
             res = []
@@ -270,6 +270,53 @@ def expected(call):
     raise NotCovered("no oracle for " + op)
 
 
+def relevant_vars(call, nodes, nv):
+    vs = set()
+    for x in call[1:]:
+        if is_bdd(x):
+            vs |= {n[0] for n in bdd_nodes(x)[2:]}
+    vs |= {n[0] for n in nodes[2:]}
+
+    def walk(x):
+        if isinstance(x, str) and x.isdigit():
+            vs.add(int(x))
+        elif isinstance(x, list) and not is_bdd(x):
+            for y in x:
+                walk(y)
+    for x in call[1:]:
+        if isinstance(x, list) and not is_bdd(x):
+            walk(x)
+        elif isinstance(x, str) and x.isdigit():
+            vs.add(int(x))
+        elif isinstance(x, str) and (x.startswith("p") or x.startswith("v")) and set(x[1:]) <= set("01-"):
+            vs |= {i for i, c in enumerate(x[1:]) if c != "-"}
+    return sorted(v for v in vs if v < nv)
+
+
+def valuations(call, nodes, nv, rng_seed=12345):
+    """all valuations when nv is small; otherwise all assignments of the variables that occur anywhere in the
+    call or the result (exact for functions depending only on them), or a random sample when there are too many"""
+    if nv <= MAXNV:
+        for i in range(1 << nv):
+            yield val_of_index(i, nv)
+        return
+    rel = relevant_vars(call, nodes, nv)
+    import random as _r
+    rng = _r.Random(rng_seed)
+    if len(rel) <= 12:
+        for bits in itertools.product([False, True], repeat=len(rel)):
+            v = [False] * nv
+            for x, c in zip(rel, bits):
+                v[x] = c
+            yield v
+        for _ in range(50):   # and a few with the other variables randomised
+            v = [rng.random() < 0.5 for _ in range(nv)]
+            yield v
+    else:
+        for _ in range(3000):
+            yield [rng.random() < 0.5 for _ in range(nv)]
+
+
 def check(call, impl):
     """(confirmed, description).  confirmed=True: a concrete failing input of the property is exhibited."""
     try:
@@ -287,16 +334,17 @@ def check(call, impl):
             _, nv, pred = exp
             if nodes[0][0] != nv:
                 return True, "result over %d variables, operands over %d" % (nodes[0][0], nv)
+            if nv > MAXNV:
+                return False, "class-counting oracle needs a small variable count"
             bad = pred(fn_of(nodes))
             return (bad is not None), bad
         nv, f = exp
         if nodes[0][0] != nv:
             return True, "result over %d variables, expected %d" % (nodes[0][0], nv)
-        for i in range(1 << nv):
-            v = val_of_index(i, nv)
+        for v in valuations(call, nodes, nv):
             e, o = f(v), raw_eval(nodes, v)
             if e != o:
-                return True, {"valuation": vbits(v), "expected": e, "observed": o}
+                return True, {"valuation": vbits(v) if nv <= 64 else {"true_variables": [i for i, c in enumerate(v) if c]}, "expected": e, "observed": o}
     except (EvalDiverges, IndexError) as ex:
         return True, "the result array cannot be evaluated: %s" % ex
     return False, None
